@@ -262,7 +262,7 @@ impl Prop for Token {
     }
     fn floors(&self) -> Vec<(&'static str, u64, u64)> {
         match self.0 {
-            Which::Invariants => vec![("exhaustive strings", 250000, 4000000), ("texts with padding", 5000, 50000), ("texts with a stemmed word", 1000, 10000), ("queries with unfinished last word", 50000, 500000), ("texts whose length changed under normalisation", 5000, 50000), ("random hostile strings", 5000, 50000), ("corpus titles", 3000, 3000)],
+            Which::Invariants => vec![("exhaustive strings", 250000, 4000000), ("texts with padding", 5000, 50000), ("texts with a stemmed word", 1000, 10000), ("queries with unfinished last word", 50000, 500000), ("texts whose length changed under normalisation", 5000, 50000), ("random hostile strings", 5000, 50000), ("random texts of 100-600 symbols", 1000, 10000), ("corpus titles", 3000, 3000)],
             Which::Variants => vec![("variants decomposed", 2000, 20000), ("variants folded", 2000, 20000), ("variants re-cased", 5000, 50000), ("variants separator prefix", 2000, 20000), ("variants of a query with hits", 5000, 50000), ("stored-decomposed comparisons", 1000, 10000)],
         }
     }
@@ -323,9 +323,24 @@ impl Prop for Token {
             (Which::Invariants, "random") => {
                 let lang = LANGS[(idx % 7) as usize];
                 let lobj = take_lang(lang);
-                let text = match cx.rng.below(4) {
-                    0 => gen::rand_title(&mut cx.rng, lang, 6),
-                    1 => {
+                let text = match cx.rng.below(9) {
+                    8 => {
+                        // long texts: beyond every initial buffer capacity (20) several times over
+                        cx.count("random texts of 100-600 symbols");
+                        let n = cx.rng.range(100, 600);
+                        if cx.rng.chance(1, 2) {
+                            (0..n).map(|_| *cx.rng.pick(gen::HOSTILE)).collect()
+                        } else {
+                            let mut t = String::new();
+                            for _ in 0..n / 6 {
+                                t.push_str(&gen::any_word(&mut cx.rng, lang));
+                                t.push_str(*cx.rng.pick(gen::SEPS));
+                            }
+                            t
+                        }
+                    }
+                    0 | 4 => gen::rand_title(&mut cx.rng, lang, 6),
+                    1 | 5 => {
                         let alpha = adversarial_alphabet(lang);
                         let n = cx.rng.range(5, 40);
                         (0..n).map(|_| *cx.rng.pick(&alpha)).collect()
